@@ -100,7 +100,7 @@ static bool run_once(const uint8_t *vars)
 
 struct case_budget chk_budget(const char *tier)
 {
-        struct case_budget b = { 0, strcmp(tier, "thorough") == 0 ? 800000 : 40000 };
+        struct case_budget b = { 0, strcmp(tier, "thorough") == 0 ? 6000000 : 120000 };
         return b;
 }
 void chk_run_case(uint64_t seed, long c, bool is_sweep)
